@@ -21,7 +21,7 @@ Definition kill (a : thread) : thread :=
   | PFinished => a
   | _ => {| t_req := t_req a; t_pc := PFinished; t_postings := t_postings a; t_unb := t_unb a; t_view := t_view a;
             t_entry := t_entry a; t_txid := t_txid a; t_granted := t_granted a; t_resp := Some RCrashed;
-            t_gen := t_gen a |}
+            t_gen := t_gen a; t_cancelled := t_cancelled a |}
   end.
 
 Lemma e2_crash_gth : forall s t, gth (crash s) t = option_map kill (gth s t).
@@ -113,6 +113,15 @@ Lemma e2_sf_resume : forall s t s', (forall t a, gth s t = Some a -> TL t a) -> 
   exists a a', stepfacts s s' t a a'.
 Proof.
   intros s t s' HTL H. destruct (e2_resume_eff _ _ _ H) as [th [th' [Hg [Hn He]]]].
+  exists (ug th), (ug th'). constructor.
+  - left. apply e2_gth_of_get. exact Hg.
+  - exact Hn.
+  - apply He. apply HTL. apply e2_gth_of_get. exact Hg.
+Qed.
+Lemma e2_sf_resume_cancelled : forall s t s', (forall t a, gth s t = Some a -> TL t a) -> resume_cancelled s t = Some s' ->
+  exists a a', stepfacts s s' t a a'.
+Proof.
+  intros s t s' HTL H. destruct (e2_resume_cancelled_eff _ _ _ H) as [th [th' [Hg [Hn He]]]].
   exists (ug th), (ug th'). constructor.
   - left. apply e2_gth_of_get. exact Hg.
   - exact Hn.
@@ -341,6 +350,24 @@ Section Step.
     - exact e2s_done. - exact e2s_ok. - exact e2s_found. - exact e2s_revtx.
   Qed.
 End Step.
+
+(* ---- the invariant reads the state only through these projections ([cancel] changes none of them) ----------------- *)
+Lemma e2_binv_ext : forall s s', (forall t, gth s' t = gth s t) -> persisted s' = persisted s ->
+  inflight s' = inflight s -> v_uid s' = v_uid s -> BInv s -> BInv s'.
+Proof.
+  intros s s' Hg Ep Ei Eu B.
+  assert (Ea : all_entries s' = all_entries s) by (unfold all_entries; rewrite Ep, Ei; reflexivity).
+  constructor.
+  - intros t a Ha. rewrite Hg in Ha. rewrite Eu. exact (b_tl s B _ _ Ha).
+  - intros t1 t2 a1 a2 e1 e2 H1 H2. rewrite Hg in H1, H2. exact (b_uid s B _ _ _ _ _ _ H1 H2).
+  - intros x Hx. rewrite Ea in Hx. rewrite Hg, Ei. exact (b_own s B x Hx).
+  - rewrite Ea. exact (b_nodup s B).
+  - intros t a e Ha. rewrite Hg in Ha. rewrite Ep. exact (b_look s B _ _ _ Ha).
+  - intros t a Ha. rewrite Hg in Ha. rewrite Ep. exact (b_done s B _ _ Ha).
+  - intros t a x Ha. rewrite Hg in Ha. rewrite Ep. exact (b_ok s B _ _ _ Ha).
+  - intros t a Ha. rewrite Hg in Ha. rewrite Ep. exact (b_found s B _ _ Ha).
+  - intros x id. rewrite Ea, Ep. exact (b_revtx s B x id).
+Qed.
 
 (* ---- persist_ok and crash ------------------------------------------------------------------------------------------ *)
 Lemma e2_binv_persist : forall s s', BInv s -> persist_ok s = Some s' -> BInv s'.
